@@ -12,6 +12,7 @@ import (
 	"fmt"
 	"io"
 	"net/http"
+	"net/url"
 	"sort"
 	"strings"
 	"sync"
@@ -29,6 +30,7 @@ type Res struct {
 	HdrLinks  []string `json:"hdr_links,omitempty"`  // html: URLs announced in a Link response header (rel=next ...)
 	FailFirst int      `json:"fail_first,omitempty"` // the first N attempts fail ...
 	FailKind  int      `json:"fail_kind,omitempty"`  // ... with this status (0 = transport error); -1 = always fail
+	BodyErr   bool     `json:"body_err,omitempty"`   // the 200 answer's body breaks off half-way with a read error
 }
 
 // Site maps the URL text as requested on the wire to its resource. Unknown URLs answer 404.
@@ -50,13 +52,14 @@ type Net struct {
 	site     Site
 	attempts map[string]int
 	log      []Fetch
+	reqs     map[*url.URL]struct{} // identity of the request objects seen: one per item (retries reuse the item's request)
 	seq      *atomic.Int64
 	t0       time.Time
 	Gate     func(req *http.Request) // optional: called before answering (to stall / observe)
 }
 
 func NewNet(site Site, seq *atomic.Int64) *Net {
-	return &Net{site: site, attempts: map[string]int{}, seq: seq, t0: time.Now()}
+	return &Net{site: site, attempts: map[string]int{}, reqs: map[*url.URL]struct{}{}, seq: seq, t0: time.Now()}
 }
 
 // Log returns a copy of the fetch log.
@@ -64,6 +67,14 @@ func (n *Net) Log() []Fetch {
 	n.mu.Lock()
 	defer n.mu.Unlock()
 	return append([]Fetch(nil), n.log...)
+}
+
+// Requests is the number of distinct request objects that reached the network. The archiver sends the request the
+// preprocessor built for the item, the same object for every retry, so this is the number of items it worked on.
+func (n *Net) Requests() int {
+	n.mu.Lock()
+	defer n.mu.Unlock()
+	return len(n.reqs)
 }
 
 var errConn = errors.New("verifsim: simulated connection failure")
@@ -75,6 +86,7 @@ func (n *Net) RoundTrip(req *http.Request) (*http.Response, error) {
 	}
 	u := req.URL.String()
 	n.mu.Lock()
+	n.reqs[req.URL] = struct{}{} // (kept referenced, so an address is never reused within a case)
 	n.attempts[u]++
 	att := n.attempts[u]
 	r := n.site[u]
@@ -129,6 +141,10 @@ func (n *Net) RoundTrip(req *http.Request) (*http.Response, error) {
 		body = []byte("temporary failure")
 		hdr = http.Header{"Content-Type": []string{"text/plain"}}
 	}
+	var rd io.Reader = bytes.NewReader(body)
+	if !fail && r != nil && r.BodyErr && status == 200 {
+		rd = io.MultiReader(bytes.NewReader(body[:len(body)/2]), errBody{})
+	}
 	return &http.Response{
 		Status:        fmt.Sprintf("%d %s", status, http.StatusText(status)),
 		StatusCode:    status,
@@ -136,11 +152,15 @@ func (n *Net) RoundTrip(req *http.Request) (*http.Response, error) {
 		ProtoMajor:    1,
 		ProtoMinor:    1,
 		Header:        hdr,
-		Body:          io.NopCloser(bytes.NewReader(body)),
+		Body:          io.NopCloser(rd),
 		ContentLength: int64(len(body)),
 		Request:       req,
 	}, nil
 }
+
+type errBody struct{}
+
+func (errBody) Read([]byte) (int, error) { return 0, errors.New("verifsim: simulated connection reset while reading the body") }
 
 var pngHeader = []byte{0x89, 'P', 'N', 'G', 0x0d, 0x0a, 0x1a, 0x0a, 0, 0, 0, 0x0d, 'I', 'H', 'D', 'R', 0, 0, 0, 1, 0, 0, 0, 1, 8, 6, 0, 0, 0, 0x1f, 0x15, 0xc4, 0x89}
 
